@@ -4,6 +4,7 @@ package interp
 
 import (
 	"bufio"
+	"bytes"
 	"fmt"
 	"go/types"
 	"io"
@@ -32,9 +33,28 @@ type Solver struct {
 	Time    time.Duration
 	Bin     string
 	logf    *os.File
+	stack   []*Term
+	lines     chan string
+	timeoutMs int
+	Restarts  int
+	// one-shot fallback solvers tried when the incremental solver answers unknown
+	Fallback   []string
+	FallbackMs int
+	Fallbacks  int
+	FallbackOK int
 }
 
 func NewSolver(bin string, timeoutMs int, logPath string) *Solver {
+	s := &Solver{Bin: bin, timeoutMs: timeoutMs}
+	if logPath != "" {
+		s.logf, _ = os.Create(logPath)
+	}
+	s.start()
+	return s
+}
+
+func (s *Solver) start() {
+	bin, timeoutMs := s.Bin, s.timeoutMs
 	var cmd *exec.Cmd
 	switch {
 	case strings.Contains(bin, "cvc5"):
@@ -48,10 +68,18 @@ func NewSolver(bin string, timeoutMs int, logPath string) *Solver {
 	if err := cmd.Start(); err != nil {
 		panic(err)
 	}
-	s := &Solver{cmd: cmd, in: in, out: bufio.NewReader(outp), Bin: bin}
-	if logPath != "" {
-		s.logf, _ = os.Create(logPath)
-	}
+	s.cmd, s.in, s.out = cmd, in, bufio.NewReader(outp)
+	s.lines = make(chan string, 64)
+	go func(r *bufio.Reader, ch chan string) {
+		for {
+			l, err := r.ReadString('\n')
+			if err != nil {
+				close(ch)
+				return
+			}
+			ch <- strings.TrimSpace(l)
+		}
+	}(s.out, s.lines)
 	var sb strings.Builder
 	if strings.Contains(bin, "cvc5") {
 		sb.WriteString("(set-logic ALL)\n(set-option :produce-models true)\n")
@@ -60,7 +88,20 @@ func NewSolver(bin string, timeoutMs int, logPath string) *Solver {
 		fmt.Fprintf(&sb, "(declare-const i%d (_ BitVec 64))\n(declare-const b%d Bool)\n(declare-const n%d Int)\n(declare-const q%d Int)\n", i, i, i, i)
 	}
 	s.send(sb.String())
-	return s
+	s.depth = 0
+}
+
+// restart kills a solver that ignores its soft timeout and rebuilds the assertion stack.
+func (s *Solver) restart() {
+	s.cmd.Process.Kill()
+	s.cmd.Wait()
+	s.Restarts++
+	st := s.stack
+	s.stack = nil
+	s.start()
+	for _, c := range st {
+		s.push(c)
+	}
 }
 
 func (s *Solver) Close() {
@@ -78,12 +119,19 @@ func (s *Solver) send(str string) {
 	io.WriteString(s.in, str)
 }
 
+type solverHang struct{}
+
 func (s *Solver) readLine() string {
-	l, err := s.out.ReadString('\n')
-	if err != nil {
-		panic("solver died: " + err.Error())
+	grace := time.Duration(s.timeoutMs)*time.Millisecond*2 + 5*time.Second
+	select {
+	case l, ok := <-s.lines:
+		if !ok {
+			panic("solver died")
+		}
+		return l
+	case <-time.After(grace):
+		panic(solverHang{})
 	}
-	return strings.TrimSpace(l)
 }
 
 // readSexp reads one balanced s-expression (may span lines).
@@ -116,6 +164,7 @@ func (s *Solver) push(c *Term) {
 	sb.WriteString(")\n")
 	s.send(sb.String())
 	s.depth++
+	s.stack = append(s.stack, c)
 }
 
 func (s *Solver) popAll() {
@@ -123,6 +172,7 @@ func (s *Solver) popAll() {
 		s.send(fmt.Sprintf("(pop %d)\n", s.depth))
 		s.depth = 0
 	}
+	s.stack = s.stack[:0]
 }
 
 // check: satisfiability of (current stack ∧ extra...). Returns sat/unsat/unknown.
@@ -138,7 +188,35 @@ func (s *Solver) check(extra []*Term, want []*Term) (string, []string) {
 	}
 	sb.WriteString("(check-sat)\n")
 	s.send(sb.String())
-	res := s.readLine()
+	var res string
+	hung := false
+	func() {
+		defer func() {
+			if r := recover(); r != nil {
+				if _, ok := r.(solverHang); ok {
+					hung = true
+					return
+				}
+				panic(r)
+			}
+		}()
+		res = s.readLine()
+	}()
+	if hung {
+		s.restart()
+		s.Queries++
+		r, v := s.oneShot(extra, want)
+		switch r {
+		case "sat":
+			s.Sat++
+		case "unsat":
+			s.Unsat++
+		default:
+			s.Unknown++
+		}
+		s.Time += time.Since(t0)
+		return r, v
+	}
 	for strings.HasPrefix(res, "(error") || res == "" {
 		if strings.HasPrefix(res, "(error") {
 			fmt.Fprintln(os.Stderr, "SOLVER ERROR:", res)
@@ -170,11 +248,127 @@ func (s *Solver) check(extra []*Term, want []*Term) (string, []string) {
 		s.Unsat++
 	default:
 		res = "unknown"
-		s.Unknown++
 	}
 	s.send("(pop 1)\n")
+	if res == "unknown" {
+		res, vals = s.oneShot(extra, want)
+		switch res {
+		case "sat":
+			s.Sat++
+		case "unsat":
+			s.Unsat++
+		default:
+			s.Unknown++
+		}
+	}
 	s.Time += time.Since(t0)
 	return res, vals
+}
+
+// oneShot re-asks the query (whole stack + extra) to fresh solver processes: their
+// non-incremental cores decide non-linear integer queries the incremental core gives up on.
+func (s *Solver) oneShot(extra []*Term, want []*Term) (string, []string) {
+	if len(s.Fallback) == 0 {
+		return "unknown", nil
+	}
+	s.Fallbacks++
+	var sb strings.Builder
+	sb.WriteString("(set-logic ALL)\n(set-option :produce-models true)\n")
+	names := map[string]bool{}
+	all := append(append([]*Term{}, s.stack...), extra...)
+	for _, t := range all {
+		t.vars(names)
+	}
+	for _, t := range want {
+		t.vars(names)
+	}
+	var ns []string
+	for n := range names {
+		ns = append(ns, n)
+	}
+	sort.Strings(ns)
+	for _, n := range ns {
+		switch n[0] {
+		case 'i':
+			fmt.Fprintf(&sb, "(declare-const %s (_ BitVec 64))\n", n)
+		case 'b':
+			fmt.Fprintf(&sb, "(declare-const %s Bool)\n", n)
+		default:
+			fmt.Fprintf(&sb, "(declare-const %s Int)\n", n)
+		}
+	}
+	for _, t := range all {
+		sb.WriteString("(assert ")
+		t.smt(&sb)
+		sb.WriteString(")\n")
+	}
+	sb.WriteString("(check-sat)\n")
+	if len(want) > 0 {
+		sb.WriteString("(get-value (")
+		for _, v := range want {
+			v.smt(&sb)
+			sb.WriteByte(' ')
+		}
+		sb.WriteString("))\n")
+	}
+	f, err := os.CreateTemp("", "gosym-q-*.smt2")
+	if err != nil {
+		return "unknown", nil
+	}
+	defer os.Remove(f.Name())
+	f.WriteString(sb.String())
+	f.Close()
+	ms := s.FallbackMs
+	if ms == 0 {
+		ms = 30000
+	}
+	for _, bin := range s.Fallback {
+		var cmd *exec.Cmd
+		if strings.Contains(bin, "cvc5") {
+			cmd = exec.Command(bin, fmt.Sprintf("--tlimit=%d", ms), "--fp-exp", f.Name())
+		} else {
+			cmd = exec.Command(bin, fmt.Sprintf("-t:%d", ms), f.Name())
+		}
+		var outb bytes.Buffer
+		cmd.Stdout = &outb
+		if err := cmd.Start(); err != nil {
+			continue
+		}
+		done := make(chan struct{})
+		go func() { cmd.Wait(); close(done) }()
+		select {
+		case <-done:
+		case <-time.After(time.Duration(ms)*time.Millisecond + 5*time.Second):
+			cmd.Process.Kill()
+			<-done
+		}
+		txt := strings.TrimSpace(outb.String())
+		if strings.Contains(txt, "(error") && !strings.HasPrefix(txt, "unsat") {
+			if !strings.HasPrefix(txt, "sat") {
+				continue
+			}
+		}
+		switch {
+		case strings.HasPrefix(txt, "unsat"):
+			s.FallbackOK++
+			return "unsat", nil
+		case strings.HasPrefix(txt, "sat"):
+			var vals []string
+			if len(want) > 0 {
+				rest := strings.TrimSpace(strings.TrimPrefix(txt, "sat"))
+				if strings.HasPrefix(rest, "(error") {
+					continue
+				}
+				vals = parseValues(rest, len(want))
+				if len(vals) != len(want) {
+					continue
+				}
+			}
+			s.FallbackOK++
+			return "sat", vals
+		}
+	}
+	return "unknown", nil
 }
 
 // parseValues splits "((t1 v1) (t2 v2) ...)" into the value strings.
@@ -313,16 +507,18 @@ type Bounds struct {
 }
 
 type Explorer struct {
-	S       *Solver
-	prefix  []bool
-	pos     int
-	pc      []*Term
-	queue   [][]bool
-	vars    []pathVar
-	nI, nB  int
-	nN, nQ  int
-	regions []regionTerm
-	obs     []string
+	S         *Solver
+	prefix    []bool
+	pos       int
+	pc        []*Term
+	queue     [][]bool
+	vars      []pathVar
+	nI, nB    int
+	nN, nQ    int
+	regions   []regionTerm
+	obs       []string
+	divCache  map[[2]*Term][2]*Term
+	mulOrigin map[*Term][2]*Term
 
 	KnownNames map[string]bool // region names with status "known"
 
@@ -533,6 +729,8 @@ func (e *Engine) Explore(run func(), b Bounds) {
 		x.S.popAll()
 		x.prefix, x.pos, x.pc, x.vars, x.regions, x.obs = p, 0, nil, nil, nil, nil
 		x.nI, x.nB, x.nN, x.nQ = 0, 0, 0, 0
+		x.divCache = nil
+		x.mulOrigin = nil
 		x.pathAsserted = 0
 		e.Steps = 0
 		e.StepLimit = b.MaxSteps
@@ -543,6 +741,9 @@ func (e *Engine) Explore(run func(), b Bounds) {
 					switch r := r.(type) {
 					case pathAbort:
 						x.Aborted[r.why]++
+					case string:
+						// the interpreter itself gave up (unsupported construct): never a verdict
+						x.Aborted["engine unsupported: "+firstLine(r)]++
 					default:
 						msg := fmt.Sprintf("PANIC: %v", r)
 						if tp, ok := r.(targetPanic); ok {
@@ -683,4 +884,14 @@ func (x *Explorer) SortedFindings() []*Finding {
 		out = append(out, x.Findings[k])
 	}
 	return out
+}
+
+func firstLine(s string) string {
+	if i := strings.IndexByte(s, '\n'); i >= 0 {
+		s = s[:i]
+	}
+	if len(s) > 120 {
+		s = s[:120]
+	}
+	return s
 }
